@@ -17,10 +17,14 @@ MANIFEST = dict(
          "the return of the text) is control dependent on the scanned length having reached a constant: headers have no maximum length; the C++ "
          "writer never uses the text as a printf format and hands it to one output call that copies it unchanged (data flow of the text "
          "through locals, buffers and helpers); the Python parser drops exactly the trailer lines; (2) SIZE line: prefix, width >= 20 and conversion agree between writer, in-place "
-         "updater and parser; (3) payload pass-through: on the binary path the object handed to Records::Write is a view of the caller's "
+         "updater and parser; the count an append puts on the SIZE line is <count kept on the handle> + <rows of the data> and, when write() returns, the attribute that count was "
+         "taken from holds the number just written (and the rows of the data after the first write): path-sensitive symbolic execution of SFile.write over the attributes of the handle, "
+         "integer terms compared as linear forms; (3) payload pass-through: on the binary path the object handed to Records::Write is a view of the caller's "
          "array (no conversion), native-order conversion and dtype byte-order stripping are control dependent on the text condition, the "
          "C++ writer issues one fwrite of rowsize x nrows with a short-write throw, readers allocate zeros(n, dtype=<file dtype>) and seek "
-         "to the data offset first; (4) header content: user header deep-copied, only underscore-prefixed reserved keys removed, _DTYPE is "
+         "to the data offset first; every fread of the C++ slice reader lands at the byte offset of the first row it carries (first transfer at the buffer of the array handed in; in a loop "
+         "the destination moves per pass by size*count of the fread, a polynomial identity over byte addresses with pointer arithmetic scaled by the pointee size) and the rows transferred "
+         "add up to the rows of the slice; (4) header content: user header deep-copied, only underscore-prefixed reserved keys removed, _DTYPE is "
          "data.dtype.descr unmodified for binary, _SIZE filled from the SIZE line, header returned by copy; helpers of the package applied to the "
          "header dict on its way to pprint.pformat / back from eval are evaluated abstractly once per type of the quantifier's value domain (None, bool, int, float, str, bytes, "
          "list, tuple, dict; isinstance/type tests decided from the type) and must return an equal value for each (a tuple rebuilt as a list is a violation); (5) every front end (sfile, "
@@ -1142,6 +1146,22 @@ def run(chk):
     row_count(chk, repo)
     handle_state(chk, repo)
     running_row_count(chk, repo)
+    binary_rows_contiguous(chk, repo, cfun)
+
+
+def binary_rows_contiguous(chk, repo, cfun):
+    """R01.3: Records::Write copies rows*rowsize bytes from the start of the array's buffer and never looks at the strides, so what
+    Recfile.write hands it on the binary path must have its rows one after the other whatever array the caller passed (a strided view
+    t[::2] is a structured array like any other).  Decided by the path analysis that C04 uses for the text path."""
+    from checks import C04 as _c04
+    try:
+        tu = _c04._TU(cfun)
+    except Exception:
+        tu = None
+    _c04.recfile_write(chk, repo, tu, binary=("R01.3", "Recfile.write[binary]::write-gets-contiguous-rows",
+                       "for binary files the array handed to Records::Write has its rows one after the other in memory whatever array the caller passed "
+                       "(ascontiguousarray, a copy, or a test of its flags): the C++ writer copies rows*rowsize bytes from PyArray_DATA and never looks at the strides"),
+                       only_binary=True)
 
 
 # ---------------------------------------------------------------------------
@@ -2224,7 +2244,20 @@ def payload(chk, repo, cfun):
     C15._run_with_init(an, init)
     data = ("param", fi.params[1]) if len(fi.params) > 1 else None
     wargs = [e.ev(c.args[0], n) for e, n, c in calls if call_name(c) == "Write" and c.args]
-    ok = None if len(wargs) != 1 else wargs[0] in (data, ("meth", data, "view", (("glob", "numpy.ndarray"),), ()))
+    def _layout_only(t):
+        """peel wrappers that keep every row's bytes, the dtype and the byte order: numpy.ascontiguousarray / require / array(copy) / .copy()"""
+        while isinstance(t, tuple) and t:
+            if t[0] == "call" and len(t) >= 3 and str(t[1]).split(".")[-1] in ("ascontiguousarray", "require", "copy") and t[2] and len(t[2]) >= 1 \
+                    and not any(k in ("dtype",) for k, _ in (t[3] if len(t) > 3 and t[3] else ())):
+                t = t[2][0]
+                continue
+            if t[0] == "meth" and t[2] == "copy":
+                t = t[1]
+                continue
+            break
+        return t
+    w0 = _layout_only(wargs[0]) if len(wargs) == 1 else None
+    ok = None if len(wargs) != 1 else w0 in (data, ("meth", data, "view", (("glob", "numpy.ndarray"),), ()))
     chk.ob(R, "Recfile.write[binary]::writes-view-of-callers-array", ok, fi.where(), "Records::Write receives data.view(ndarray): the caller's bytes, dtype and byte order as they are (%s)" % [show(t) for t in wargs])
     # C++ Write
     w = cfun["Records::Write"]
@@ -2433,16 +2466,21 @@ def _c_kids(n):
 
 
 class CAffine:
-    """C integer and address expressions as polynomials (sympy normalises polynomials, nothing else)"""
+    """C integer and address expressions as polynomials (sympy normalises polynomials, nothing else).  resolve(name) gives the
+    initialiser of a local whose value at the point of interest is its one store, or None; cfun the functions of the file: a
+    helper whose body is one `return <expression>;` is read as that expression with its parameters bound."""
 
-    def __init__(self, inits):
+    def __init__(self, resolve, cfun=None):
         import sympy as sp
         self.sp = sp
-        self.inits = inits
+        self.resolve = resolve
+        self.cfun = cfun or {}
         self.ROW = sp.Symbol("ROWSIZE", positive=True, integer=True)
         self.opaque = set()         # symbols standing for expressions this reading does not follow
         self.bases = {}             # symbol -> the array whose buffer it is
         self.rowcounts = set()      # symbols that are the number of rows of the slice asked for
+        self.used = {}              # local replaced by its initialiser -> that polynomial
+        self.env = []               # parameter bindings of the helpers being read
 
     def sym(self, name):
         return self.sp.Symbol(name, integer=True)
@@ -2451,6 +2489,29 @@ class CAffine:
         s = self.sym("<%s>" % cfront.render(n))
         self.opaque.add(s)
         return s
+
+    def _helper(self, n, depth):
+        nm = cfront.callee_name(n)
+        g = (self.cfun.get("Records::%s" % nm) or self.cfun.get(nm)) if nm else None
+        if g is None or not cfront.has_body(g) or depth > 6 or len(self.env) > 3:
+            return None
+        st = _c_kids(cfront.body_of(g))
+        if len(st) != 1 or st[0].get("kind") != "ReturnStmt" or not _c_kids(st[0]):
+            return None
+        ps = cfront.params_of(g)
+        args = cfront.call_args(n)
+        if n.get("kind") == "CXXMemberCallExpr":
+            callee = cfront.strip(n["inner"][0])
+            if not (callee.get("kind") == "MemberExpr" and (not _c_kids(callee) or cfront.strip(_c_kids(callee)[0]).get("kind") == "CXXThisExpr")):
+                return None
+        if len(ps) != len(args) or not all(ps):
+            return None
+        b = {p: self.ev(a_, depth + 1) for p, a_ in zip(ps, args)}
+        self.env.append(b)
+        try:
+            return self.ev(_c_kids(st[0])[0], depth + 1)
+        finally:
+            self.env.pop()
 
     def ev(self, n, depth=0):
         sp = self.sp
@@ -2469,8 +2530,16 @@ class CAffine:
         if k == "DeclRefExpr":
             rd = n.get("referencedDecl") or {}
             nm = rd.get("name")
-            if rd.get("kind") == "VarDecl" and nm in self.inits and depth < 8:
-                return self.ev(self.inits[nm], depth + 1)
+            if self.env:
+                if rd.get("kind") == "ParmVarDecl" and nm in self.env[-1]:
+                    return self.env[-1][nm]
+                return self._opaque(n)
+            if rd.get("kind") == "VarDecl" and nm and depth < 8:
+                init = self.resolve(nm)
+                if init is not None:
+                    v = self.ev(init, depth + 1)
+                    self.used[nm] = v
+                    return v
             if rd.get("kind") in ("VarDecl", "ParmVarDecl") and nm:
                 return self.sym(nm)
             return self._opaque(n)
@@ -2482,21 +2551,25 @@ class CAffine:
             nm = cfront.callee_name(n)
             args = cfront.call_args(n)
             if nm in ("PyArray_BYTES", "PyArray_DATA") and len(args) == 1:
-                s = self.sym("buffer(%s)" % cfront.render(args[0]))
-                self.bases[s] = cfront.render(args[0])
+                who = self.ev(args[0], depth)
+                s = self.sym("buffer(%s)" % who)
+                self.bases[s] = str(who)
                 return s
             if nm == "PyArray_ITEMSIZE" and len(args) == 1:
                 return self.ROW
-            if nm == "PyArray_STRIDE" and len(args) == 2 and cfront.render(args[1]) == "0":
+            if nm == "PyArray_STRIDE" and len(args) == 2 and self.ev(args[1], depth) == 0:
                 return self.ROW
         if k in ("CallExpr", "CXXMemberCallExpr"):
+            v = self._helper(n, depth)
+            if v is not None:
+                return v
             s = self._opaque(n)
             if cfront.callee_name(n) in _C_ROWCOUNT_OF_SLICE:
                 self.rowcounts.add(s)
             return s
         if k == "ArraySubscriptExpr" and len(inner) == 2:
             b = cfront.strip(inner[0])
-            if b.get("kind") == "CallExpr" and cfront.callee_name(b) == "PyArray_STRIDES" and cfront.render(inner[1]) == "0":
+            if b.get("kind") == "CallExpr" and cfront.callee_name(b) == "PyArray_STRIDES" and self.ev(inner[1], depth) == 0:
                 return self.ROW
             return self._opaque(n)
         if k == "UnaryOperator" and inner:
@@ -2570,14 +2643,22 @@ def _c_writes(root):
     return out
 
 
-def _c_transfer(fn, par, allw, fr):
+def _c_transfer(fn, cfun, par, allw, view, node_of, fr):
     """one fread of the slice reader: ((verdict, text) for its destination, (verdict, text) for the rows it accounts for)"""
     params = [p for p in cfront.params_of(fn) if p]
+    nF = node_of.get(id(fr))
     anc = []
     x = fr
     while id(x) in par:
         x = par[id(x)]
         anc.append(x)
+    loops = [a_ for a_ in anc if a_.get("kind") in _C_LOOPS]
+    shown0 = "`%s`" % cfront.render(fr)
+    if len(loops) > 1 or nF is None:
+        return (None, shown0 + ": the call sits in nested loops"), (None, shown0 + ": the call sits in nested loops")
+    loop = loops[0] if loops else None
+    init, cond, inc, lbody = _c_loop_parts(loop) if loop else (None, None, None, None)
+    inloop = {id(y) for part in (cond, inc, lbody) if part for y in cfront.walk(part)}
     # the variables the call can name, each with the stores made to it inside the scope that declares it (the same name declared in
     # a sibling scope is another variable)
     scoped = {}
@@ -2589,8 +2670,8 @@ def _c_transfer(fn, par, allw, fr):
                 if a_.get("kind") == "CompoundStmt":
                     decls = [d for st in _c_kids(a_) if st.get("kind") == "DeclStmt" for d in _c_kids(st)]
                 elif a_.get("kind") == "ForStmt":
-                    init = _c_loop_parts(a_)[0]
-                    decls = _c_kids(init) if init is not None and init.get("kind") == "DeclStmt" else []
+                    i0 = _c_loop_parts(a_)[0]
+                    decls = _c_kids(i0) if i0 is not None and i0.get("kind") == "DeclStmt" else []
                 else:
                     continue
                 if any(d.get("kind") == "VarDecl" and d.get("name") == v for d in decls):
@@ -2599,30 +2680,34 @@ def _c_transfer(fn, par, allw, fr):
             inside = {id(y) for y in cfront.walk(scope)} if scope is not None else None
             scoped[v] = [(y, kind) for w, y, kind in allw if w == v and (inside is None or id(y) in inside)]
         return scoped[v]
-    inits = {}
-    for v in {w for w, _, _ in allw}:
-        ws = stores(v)
-        if len(ws) == 1 and ws[0][1] == "decl" and cfront.strip(_c_kids(ws[0][0])[-1]).get("kind") != "CXXConstructExpr":
-            inits[v] = _c_kids(ws[0][0])[-1]
-    loops = [a_ for a_ in anc if a_.get("kind") in _C_LOOPS]
-    A = CAffine(inits)
+
+    def arriving(v):
+        """the stores to v that can be the last one before the call"""
+        return [(y, kind) for y, kind in stores(v) if node_of.get(id(y)) is not None and node_of[id(y)] is not nF and view.reaches(node_of[id(y)], nF)]
+
+    def store_value(y, kind):
+        if kind == "decl":
+            return _c_kids(y)[-1] if cfront.strip(_c_kids(y)[-1]).get("kind") != "CXXConstructExpr" else None
+        if y.get("kind") == "BinaryOperator" and y.get("opcode") == "=":
+            return _c_kids(y)[1]
+        return None
+
+    def resolve(v):
+        ws = arriving(v)
+        if len(ws) == 1:
+            return store_value(*ws[0])
+        return None
+    A = CAffine(resolve, cfun)
     sp = A.sp
     dst, size, count = (sp.expand(A.ev(a_)) for a_ in cfront.call_args(fr)[:3])
     nbytes = sp.expand(size * count)
-    shown = "`%s`: %s bytes to %s" % (cfront.render(fr), nbytes, dst)
-    if len(loops) > 1:
-        return (None, shown + ": the call sits in nested loops"), (None, shown + ": the call sits in nested loops")
-    first, delta = {}, {}           # stepping variable -> its value at the first transfer, what one pass adds to it
-    cond, cl, cr, cop = None, None, None, None
-    stepped = set()                 # names stored to inside the loop
+    shown = "%s: %s bytes to %s" % (shown0, nbytes, dst)
+    start, first, delta = {}, {}, {}        # stepping variable -> its value when the loop is entered, at the first transfer, what one pass adds
+    cl, cr, cop = None, None, None
+    stepped = set()                         # names stored to inside the loop
     why = ""
-    if loops:
-        loop = loops[0]
-        init, cond, inc, lbody = _c_loop_parts(loop)
+    if loop:
         stmts = _c_kids(lbody) if lbody.get("kind") == "CompoundStmt" else [lbody]
-        inloop = {id(y) for part in (cond, inc, lbody) if part for y in cfront.walk(part)}
-        ininit = {id(y) for y in cfront.walk(init)} if init is not None else set()
-        inwhole = {id(y) for y in cfront.walk(loop)}
 
         def top_index(x):
             """index of the statement of the loop body whose own expression holds x (for an `if`: its condition, not its arms);
@@ -2642,6 +2727,9 @@ def _c_transfer(fn, par, allw, fr):
         ifr = top_index(fr)
         if ifr is None:
             why = "the call is not made exactly once per pass of its loop"
+        # a pass that can be cut short (continue, or a break that is not an error exit) does not step everything once
+        if any(y.get("kind") in ("ContinueStmt", "GotoStmt") for y in cfront.walk(lbody)):
+            why = why or "a pass of the loop can be cut short"
         cn = cfront.strip(cond) if cond is not None else {}
         if cn.get("kind") == "BinaryOperator" and cn.get("opcode") in ("<", ">", "!=") and len(_c_kids(cn)) == 2:
             cop = cn["opcode"]
@@ -2649,13 +2737,13 @@ def _c_transfer(fn, par, allw, fr):
             if cop == ">":
                 cl, cr, cop = cr, cl, "<"
         used = dst.free_symbols | size.free_symbols | count.free_symbols | (cl.free_symbols | cr.free_symbols if cl is not None else set())
-        stepped = {v for v, y, kind in allw if id(y) in inloop and kind != "decl"}
+        stepped = {v for v, y, kind in allw if id(y) in inloop and kind != "decl" and (y, kind) in stores(v)}
         for v in sorted(stepped):
             vs = A.sym(v)
             if vs not in used:
                 continue
             inside = [(y, kind) for y, kind in stores(v) if id(y) in inloop]
-            outside = [(y, kind) for y, kind in stores(v) if id(y) not in inloop]
+            outside = [(y, kind) for y, kind in arriving(v) if id(y) not in inloop]
             if len(inside) != 1 or len(outside) != 1 or top_index(inside[0][0]) is None:
                 continue                # not moved by one step per pass: it keeps its name, nothing is derived from it
             y, kind = inside[0]
@@ -2674,14 +2762,8 @@ def _c_transfer(fn, par, allw, fr):
                     continue
             else:
                 continue
-            o, okind = outside[0]
-            if id(o) in inwhole and id(o) not in ininit:
-                continue
-            if okind == "decl":
-                start = A.ev(_c_kids(o)[-1])
-            elif o.get("opcode") == "=" and o.get("kind") == "BinaryOperator":
-                start = A.ev(_c_kids(o)[1])
-            else:
+            sv = store_value(*outside[0])
+            if sv is None:
                 continue
             iu = top_index(y)
             if ifr is not None:
@@ -2689,10 +2771,21 @@ def _c_transfer(fn, par, allw, fr):
                 lo, hi = min(ifr, iu), max(ifr, iu)
                 between = {id(z) for s_ in stmts[lo + 1:hi] for z in cfront.walk(s_)}
                 if any(A.sym(w) in d.free_symbols and id(z) in between for w, z, _ in allw):
-                    why = "what %s is stepped by is changed between the call and the step" % v
+                    why = why or "what %s is stepped by is changed between the call and the step" % v
             delta[vs] = d
-            first[vs] = sp.expand(start + (d if (ifr is not None and iu < ifr) else 0))
+            start[vs] = sp.expand(A.ev(sv))
+            first[vs] = sp.expand(start[vs] + (d if (ifr is not None and iu < ifr) else 0))
+    # a local replaced by its initialiser stands for the value it was given: what the initialiser is written with must not have
+    # been stored to since, on a way to the call that does not pass the initialisation again
+    for u, poly in A.used.items():
+        mu = node_of.get(id(arriving(u)[0][0])) if len(arriving(u)) == 1 else None
+        for s_ in poly.free_symbols:
+            for y, kind in (stores(str(s_)) if mu is not None else []):
+                my = node_of.get(id(y))
+                if my is not None and my is not mu and view.reaches(mu, my) and (my is nF or view.reaches(my, nF, avoiding=[mu])):
+                    why = why or "%s is changed after %s was computed from it" % (s_, u)
     # ---- destination
+    alien = A.opaque - A.rowcounts
     moving = [v for v in dst.free_symbols if v in delta]
     lost = sorted(str(s_) for s_ in dst.free_symbols if str(s_) in stepped and s_ not in delta)
     d0 = sp.expand(dst.subs(first, simultaneous=True))
@@ -2700,7 +2793,7 @@ def _c_transfer(fn, par, allw, fr):
     seen_syms = dst.free_symbols | d0.free_symbols | nbytes.free_symbols
     for v in moving:
         seen_syms = seen_syms | delta[v].free_symbols
-    followed = not ((A.opaque - A.rowcounts) & seen_syms)
+    followed = not (alien & seen_syms)
     if why or lost:
         dres = (None, "%s: %s" % (shown, why or "how %s changes from pass to pass was not followed" % ", ".join(lost)))
     elif len(bases) != 1 or A.bases[bases[0]] not in params:
@@ -2711,7 +2804,7 @@ def _c_transfer(fn, par, allw, fr):
         if off0 != 0:
             ok = False if followed else None
             msg = "the first transfer goes to byte %s of the array, not to its first row" % off0
-        elif loops:
+        elif loop:
             adv = sp.expand(dst.subs({v: v + delta[v] for v in moving}, simultaneous=True) - dst)
             if sp.expand(adv - nbytes) != 0:
                 ok = False if followed else None
@@ -2719,28 +2812,31 @@ def _c_transfer(fn, par, allw, fr):
                     nbytes, adv, ", ".join("%s is stepped by %s" % (v, delta[v]) for v in moving) or "nothing it is computed from is stepped")
         dres = (ok, shown + (": " + msg if msg else ""))
     # ---- amount
-    alien = A.opaque - A.rowcounts
-    if not loops:
+    if not loop:
         N = [s_ for s_ in nbytes.free_symbols if s_ in A.rowcounts]
-        if len(N) == 1 and sp.expand(nbytes - A.ROW * N[0]) == 0:
+        if why:
+            ares = (None, "%s: %s" % (shown, why))
+        elif len(N) == 1 and sp.expand(nbytes - A.ROW * N[0]) == 0:
             ares = (True, shown)
         elif N and not (alien & nbytes.free_symbols):
             ares = (False, "%s: that is not <row size> x <rows of the slice> = %s" % (shown, sp.expand(A.ROW * N[0])))
         else:
             ares = (None, "%s: the number of rows of the slice (%s) was not recognised in it" % (shown, "/".join(_C_ROWCOUNT_OF_SLICE)))
     else:
-        ares = (None, shown + ": the loop condition was not recognised as <rows transferred so far> < <rows of the slice>")
-        if not why and cl is not None:
-            if cop == "!=" and cl in A.rowcounts:
-                cl, cr = cr, cl
-            N = [s_ for s_ in cr.free_symbols if s_ in A.rowcounts]
-            if cl in delta and len(N) == 1:
-                per = sp.expand(delta[cl] * A.ROW - nbytes)
-                if per == 0 and first[cl] == 0 and cr == N[0]:
+        ares = (None, shown + ": the loop condition was not recognised as <rows transferred so far> < <rows of the slice> (or <rows left> > 0)")
+        if not why and cl is not None and not any(str(s_) in stepped and s_ not in delta for s_ in cl.free_symbols | cr.free_symbols):
+            # the loop runs while rem > 0 (rem != 0): rem is the rows of the slice when the loop is entered and a pass takes the rows it transfers off it
+            for rem in ((cr - cl,) if cop == "<" else (cr - cl, cl - cr)):
+                rem = sp.expand(rem)
+                r0 = sp.expand(rem.subs(start, simultaneous=True))
+                dr = sp.expand(rem.subs({v: v + delta[v] for v in rem.free_symbols if v in delta}, simultaneous=True) - rem)
+                N = [s_ for s_ in r0.free_symbols if s_ in A.rowcounts]
+                if len(N) == 1 and sp.expand(r0 - N[0]) == 0 and sp.expand(dr * A.ROW + nbytes) == 0:
                     ares = (True, shown)
-                elif not (alien & (per.free_symbols | first[cl].free_symbols | cr.free_symbols)):
-                    ares = (False, "%s: the loop counts %s per pass from %s up to %s while a pass transfers %s bytes: the rows transferred do not add up to the rows of the slice (%s)" % (
-                        shown, delta[cl], first[cl], cr, nbytes, N[0]))
+                    break
+                if len(N) == 1 and r0.coeff(N[0]) == 1 and not (alien & (r0.free_symbols | dr.free_symbols | nbytes.free_symbols)) and ares[0] is None:
+                    ares = (False, "%s: the loop runs while %s > 0, which is %s when it is entered and changes by %s per pass while a pass transfers %s bytes: the rows transferred do "
+                            "not add up to the rows of the slice (%s)" % (shown, rem, r0, dr, nbytes, N[0]))
     return dres, ares
 
 
@@ -2752,8 +2848,15 @@ def row_transfers(chk, cfun):
     body = cfront.body_of(fn)
     par = _c_parents(body)
     allw = _c_writes(body)
+    ccfg = cfront.CCFG(fn)
+    view = ccfg.view()
+    node_of = {}
+    for n in ccfg.nodes:
+        if isinstance(n.c, dict) and n.id in view.reach:
+            for y in cfront.walk(n.c):
+                node_of.setdefault(id(y), n)
     freads = [c for c in cfront.calls_in(body) if cfront.callee_name(c) == "fread" and len(cfront.call_args(c)) == 4 and "mFptr" in _c_refs_members(cfront.call_args(c)[3])]
-    res = [_c_transfer(fn, par, allw, fr) for fr in freads]
+    res = [_c_transfer(fn, cfun, par, allw, view, node_of, fr) for fr in freads if id(fr) in node_of]
 
     def verdict(items):
         vs = [v for v, _ in items]
@@ -4170,10 +4273,16 @@ class HandleExec:
         if isinstance(e, ast.Subscript) and isinstance(e.slice, ast.Constant) and isinstance(e.slice.value, (str, int)):
             h = _self_attr(e.value, sn)
             if h is None and isinstance(e.value, ast.Name) and e.value.id in st.loc:
+                # a local that is the object the attribute holds now (the value it had on entry and not assigned since, or the very
+                # value it was assigned)
                 t = st.loc[e.value.id]
-                for L, v in list(st.att.items()) + [(t[1], t)] * (t[0] == "old"):
-                    if L[0] == "a" and v == t and t[0] in ("old", "unk", "mk"):
-                        h = L[1]
+                if t[0] == "old" and t[1][0] == "a" and t[1] not in st.att:
+                    h = t[1][1]
+                elif t[0] in ("old", "unk"):
+                    hs = [L[1] for L, v in st.att.items() if L[0] == "a" and v == t]
+                    h = hs[0] if len(hs) == 1 else None
+            if h == "__dict__" and isinstance(e.slice.value, str):
+                return ("a", e.slice.value)
             if h is not None:
                 return ("k", h, e.slice.value)
         return None
@@ -4203,7 +4312,7 @@ class HandleExec:
         if isinstance(e, ast.Call) and isinstance(e.func, ast.Name) and e.func.id in _PURE_BUILTINS and e.func.id not in st.loc \
                 and e.func.id not in fi.module.funcs and e.func.id not in fi.module.imports and not e.keywords and not any(isinstance(a_, ast.Starred) for a_ in e.args):
             args = tuple(self.ev(a_, st, fi) for a_ in e.args)
-            if e.func.id == "int" and len(args) == 1 and (args[0][0] in ("op", "old") or (args[0][0] == "attr" and args[0][2] == "size")):
+            if e.func.id == "int" and len(args) == 1 and (args[0][0] == "old" or (args[0][0] == "op" and args[0][1] in ("+", "-")) or (args[0][0] == "attr" and args[0][2] == "size")):
                 return args[0]          # an integer already: a count kept on the handle, a sum of counts, the size of an array
             return ("call", e.func.id, args)
         if isinstance(e, ast.NamedExpr):
@@ -4218,8 +4327,11 @@ class HandleExec:
         if isinstance(e, ast.Compare) and len(e.ops) == 1 and isinstance(e.ops[0], (ast.Is, ast.IsNot, ast.Eq, ast.NotEq)):
             a_, b = self.ev(e.left, st, fi), self.ev(e.comparators[0], st, fi)
             if a_[0] == "lit" and b[0] == "lit":
-                same = (a_[1] is b[1]) if isinstance(e.ops[0], (ast.Is, ast.IsNot)) else (a_[1] == b[1] and type(a_[1]) is type(b[1]))
-                if isinstance(e.ops[0], (ast.Is, ast.IsNot)) and not (a_[1] is None or b[1] is None):
+                if a_[1] is None or b[1] is None:
+                    same = a_[1] is b[1]
+                elif isinstance(e.ops[0], (ast.Eq, ast.NotEq)) and type(a_[1]) is type(b[1]):
+                    same = a_[1] == b[1]
+                else:
                     return None
                 return same if isinstance(e.ops[0], (ast.Is, ast.Eq)) else not same
             return None
@@ -4230,11 +4342,38 @@ class HandleExec:
     # -- statements -------------------------------------------------------
     def check_nested(self, node, fi, allowed):
         """calls that matter may only stand as a whole statement or as the whole right-hand side"""
+        sn = _selfname(fi)
         for x in ast.walk(node):
             if isinstance(x, ast.Call) and x is not allowed:
                 g = self.method_of(fi, x)
-                if self.sink(x) or (g is not None and self.relevant(g)):
+                if self.sink(x) or (g is not None and self.relevant(g)) or (g is None and self.escapes(x, sn)):
                     raise _GiveUp("the call %s is part of a larger expression" % norm(x)[:60])
+
+    _READ_METHODS = ("get", "keys", "items", "values", "copy", "tell", "index", "count")
+
+    def mutated_below(self, node, st, fi):
+        """attributes of the handle whose object has a method called on it that may change what it holds under a key
+        (self.h.update(...), alias.pop(...)): the entries followed for them are forgotten"""
+        sn = _selfname(fi)
+        out = set()
+        for x in ast.walk(node):
+            if isinstance(x, ast.Call) and isinstance(x.func, ast.Attribute) and x.func.attr not in self._READ_METHODS and not self.sink(x):
+                h = _self_attr(x.func.value, sn)
+                if h is None and isinstance(x.func.value, ast.Name) and x.func.value.id in st.loc:
+                    t = st.loc[x.func.value.id]
+                    hs = [L[1] for L, v in st.att.items() if L[0] == "a" and v == t] + ([t[1][1]] if t[0] == "old" and t[1][0] == "a" else [])
+                    out.update(hs)
+                elif h is not None:
+                    out.add(h)
+        return out
+
+    def forget_below(self, st, hs):
+        for h in hs:
+            for M in [M for M in st.att if M[0] == "k" and M[1] == h]:
+                st.att[M] = self.unk()
+            st.att[("k*", h)] = self.unk()
+            if h == "__dict__":
+                self.forget_handle(st)
 
     def havoc(self, st, stmts, fi):
         """forget what the statements may store: locals they assign, and every attribute of the handle when they store to it or make
@@ -4365,6 +4504,28 @@ class HandleExec:
         return states, rets, brk, cont
 
     def stmt(self, s_, states, fi, depth):
+        res = self.stmt0(s_, states, fi, depth)
+        own = [s_] if isinstance(s_, (ast.Expr, ast.Assign, ast.AnnAssign, ast.AugAssign, ast.Return, ast.Assert, ast.Delete)) else \
+            ([s_.test] if isinstance(s_, (ast.If, ast.While)) else ([s_.iter] if isinstance(s_, (ast.For, ast.AsyncFor)) else
+             ([it.context_expr for it in s_.items] if isinstance(s_, (ast.With, ast.AsyncWith)) else [])))
+        if own and any(isinstance(x, ast.Call) and isinstance(x.func, ast.Attribute) for o in own for x in ast.walk(o)):
+            out = []
+            for group in res:
+                new = []
+                for item in group:
+                    st = item[0] if isinstance(item, tuple) else item
+                    hs = set()
+                    for o in own:
+                        hs |= self.mutated_below(o, st, fi)
+                    if hs:
+                        st = st.copy()
+                        self.forget_below(st, hs)
+                    new.append((st,) + item[1:] if isinstance(item, tuple) else st)
+                out.append(new)
+            res = tuple(out)
+        return res
+
+    def stmt0(self, s_, states, fi, depth):
         sn = _selfname(fi)
         if isinstance(s_, ast.Expr):
             if isinstance(s_.value, ast.Call):
